@@ -57,19 +57,19 @@ def parseMethod (buf : Bytes) : Res (Method × Bytes) :=
 
 -- ---------------------------------------------------------------- parse_uri
 
-/-- step 2 of `parse_uri`: returns `(i, path_start_i)` -/
-def authorityLoop (buf : Bytes) : Nat → Nat → Res (Nat × Nat)
-  | 0, _ => .panic "fuel"
-  | fuel + 1, i =>
+/-- step 2 of `parse_uri`: returns `(i, path_start_i)`; `seen` = the scheme separator was already skipped -/
+def authorityLoop (buf : Bytes) : Nat → Nat → Bool → Res (Nat × Nat)
+  | 0, _, _ => .panic "fuel"
+  | fuel + 1, i, seen =>
     if i < buf.length then
       match idx buf i "parse_uri buf[i]" with
       | .ok b =>
-        if b == COLON && decide (i + 2 < buf.length) && (buf.drop i).take 3 == str "://" then
-          authorityLoop buf fuel (i + 3)
+        if b == COLON && !seen && decide (i + 2 < buf.length) && (buf.drop i).take 3 == str "://" then
+          authorityLoop buf fuel (i + 3) true
         else if b == SLASH then .ok (i, i)
         else if b == SP || b == QMARK then .ok (i, 0)
         else if !isValidUriByte b then .err .status
-        else authorityLoop buf fuel (i + 1)
+        else authorityLoop buf fuel (i + 1) seen
       | .err e => .err e | .panic s => .panic s | .ub s => .ub s
     else .ok (i, 0)
 
@@ -81,9 +81,10 @@ def parseUri (buf : Bytes) : Res (Uri × Bytes) :=
       match buf[1]? with
       | some b1 => if b1 == SP then .ok (⟨str "*", 0, 1⟩, buf.drop 2) else .err .status
       | none => .err .eof
+    else if b0 == SP then .err .status   -- empty target
     else do
       let origin := b0 == SLASH
-      let (i, ps) ← if origin then (pure (0, 0) : Res (Nat × Nat)) else authorityLoop buf (buf.length + 1) 0
+      let (i, ps) ← if origin then (pure (0, 0) : Res (Nat × Nat)) else authorityLoop buf (buf.length + 1) 0 false
       if !origin && ps == 0 then
         -- no slash found => authority-form / path-less absolute-form
         let tail ← sliceFrom buf i "parse_uri &buf[j..]"
